@@ -214,8 +214,8 @@ func TestC07(t *testing.T) {
 
 	// ---- rule sets ----
 	acts := []string{"get", "info", "put", "activate", "delete", "ge", "gett", "", "*", "GET"}
-	rpats := []string{"a", "b", "a/b", "*", "a/*", "*b", "a*b", "**", "", "a.b", "a\nb", "x", "dev/*", "*/key"}
-	rnames := []string{"a", "b", "a/b", "ab", "a/x/b", "", "a.b", "axb", "a\nb", "dev/key", "x", "dev/", "_internal/x"}
+	rpats := []string{"a", "b", "a/b", "*", "a/*", "*b", "a*b", "**", "", "a.b", "a\nb", "x", "dev/*", "*/key", "é", "équipe/*", "秘密/*", "*/🔑", "é*é", "日本", "a\\E*"}
+	rnames := []string{"a", "b", "a/b", "ab", "a/x/b", "", "a.b", "axb", "a\nb", "dev/key", "x", "dev/", "_internal/x", "é", "équipe/", "équipe/x", "秘密/db", "秘密/", "k/🔑", "éé", "日本", "a\\Eb"}
 	genRules := func(rng *rand.Rand) []refmodel.Rule {
 		n := rng.IntN(5)
 		rules := make([]refmodel.Rule, 0, n)
@@ -244,6 +244,18 @@ func TestC07(t *testing.T) {
 			out = append(out, ar)
 		}
 		return out
+	}
+	// every pattern of the pool against every name of the pool, through Rules.Allow (one rule, one pattern)
+	for _, pat := range rpats {
+		for _, name := range rnames {
+			want := refmodel.GlobMatch(pat, name)
+			got, pan := safeAllow(acl.Rules{{Action: []acl.Action{"get"}, Secret: []acl.Secret{acl.Secret(pat)}}}, "get", name)
+			r.Eval(1)
+			r.Count("ruleset_decisions", 1)
+			if pan != nil || got != want {
+				r.Violation("allow-differs", -1, fmt.Sprintf("Rules{{get,[%q]}}.Allow(get,%q)=%t (panic %v), the pattern matches the name: %t", pat, name, got, pan, want), map[string]any{"pattern": pat, "name": name})
+			}
+		}
 	}
 	nSets := r.N(5000, 100000)
 	rng = r.Rand(2)
